@@ -28,6 +28,16 @@ def run(chk):
                        'tree.  2.0 grammar on the operator subset the installed parser supports.')
     chk.trust('spec/pattern_sem.py reader/printer as the pattern grammar', 'the installed stix2patterns ANTLR parser (exercised, never specified)')
     pats = PG.patterns(chk.tier)
+    # constants whose payload begins with the letter of their own (or another) literal prefix: b'b...', h'ab..', 'b', 't', strings holding a quote after such a letter
+    PA = PG.PA
+    for lit in [('bin', 'bWFsd2FyZQ=='), ('bin', 'bbbbQUJD'), ('bin', 'Yg=='), ('bin', 'bmI='), ('bin', 'aGVsbG8='), ('hex', 'abba'), ('hex', 'bb'), ('hex', '00ff'), ('str', 'b'), ('str', 'h'), ('str', 't'),
+                ('str', "b'x"), ('str', "b'"), ('str', "h'ab'"), ('str', 'bb'), ('ts', '2020-01-01T00:00:00.5Z')]:
+        pats.append(('OBS', ('CMP', PA, '=', False, lit))); pats.append(('OBS', ('CMP', PA, '!=', False, lit)))
+        if lit[0] in ('bin', 'hex', 'str'): pats.append(('OBS', ('CMP', PA, 'IN', False, ('set', (lit, (lit[0], {'bin': 'YWJj', 'hex': 'ab', 'str': 'x'}[lit[0]]))))))
+    from stix2patterns.validator import run_validator as _validate
+    def grammar_accepts(text, ver):
+        try: return not _validate(text, stix_version=ver)
+        except Exception: return False
     # frame: parsing depends on the text and its options only (a memoised parse would hand out one mutable model to every caller)
     from vf.callsites import purity_obligations
     from vf.check import SRC_ROOT
@@ -39,10 +49,10 @@ def run(chk):
         text = show(t)
         want = PG.tree_key(read(text))
         for ver in ('2.1', '2.0'):
-            if ver == '2.0' and any(w in text for w in ('ISSUBSET', 'ISSUPERSET')) is False and chk.tier == 'quick' and len(text) > 40: continue
+            if ver == '2.0' and any(w in text for w in ('ISSUBSET', 'ISSUPERSET')) is False and chk.tier == 'quick' and len(text) > 40 and '[' not in text[1:-1]: continue
             try: printed = str(create_pattern_object(text, version=ver))
             except Exception as ex:
-                if ver == '2.0': continue          # the 2.0 grammar is covered where the installed parser supports the construct
+                if ver == '2.0' and not grammar_accepts(text, '2.0'): continue          # the 2.0 grammar is covered where the installed 2.0 parser accepts the text
                 return (f'parse#valid pattern accepted:{type(ex).__name__}', f'{text}: create_pattern_object raised {type(ex).__name__}: {str(ex)[:100]}', {'pattern': text})
             try: back = read(printed)
             except Exception as ex: return (f'print#printed text is a valid pattern:{ver}', f'{text} printed as {printed!r}, which the independent reader rejects: {ex}', {'pattern': text})
@@ -66,6 +76,13 @@ def run(chk):
             again = str(create_pattern_object(mtext, version='2.1'))
             if PG.tree_key(read(again)) != want: return ('model#parses back to the same structure', f'{mtext} parses back as {again}', {'pattern': text})
         except Exception as ex: return ('model#printed text parses', f'model text {mtext!r}: {type(ex).__name__}: {str(ex)[:80]}', {'pattern': text})
+    # known finding: a comparison AND whose operands share no object type is valid text that the object model refuses
+    for ver in ('2.1', '2.0'):
+        try: create_pattern_object("[a:x = 1 AND b:x = 1]", version=ver)
+        except ValueError as ex:
+            if 'same object type' in str(ex): chk.violation('parse#valid pattern refused by the object model:comparison AND whose operands share no object type', f'create_pattern_object("[a:x = 1 AND b:x = 1]", version={ver!r}) raised ValueError: {ex}', {})
+            else: chk.violation('parse#valid pattern accepted:ValueError', f'[a:x = 1 AND b:x = 1] ({ver}): ValueError: {ex}', {})
+        except Exception as ex: chk.violation(f'parse#valid pattern accepted:{type(ex).__name__}', f'[a:x = 1 AND b:x = 1] ({ver}): {type(ex).__name__}: {ex}', {})
     chk.bounded('pattern text <-> object model', pats, check, classify=classify,
                 bound=f'{len(pats)} generated patterns: 11 operators x NOT x constant kinds on 2 paths, escape-heavy string constants, 4 path shapes, boolean/observation nesting to depth 3 from 3-6 leaves, all qualifiers; both grammars; text route and model-class route')
 
